@@ -12,6 +12,7 @@ func checkC10(c *Check) {
 	c.peerStopDisablesBoth("C10.3 stop-joins-everything")
 	c.serveShutdown("C10.3 stop-joins-everything")
 	c.cleanupOnExit("C10.5 cleanup-completeness")
+	c.openAbortOnError("C10.5 connection-released-on-abort")
 	c.disableStopsAndJoins("C10.3 stop-joins-everything")
 	c.packageState("C10.1 package-state")
 	c.rendezvousChannels("C10.3 nothing-parked-at-stop", "inConnCh")
